@@ -77,6 +77,23 @@ def verdict_model(mexe, mode, probs, direct2=False, changed=False):
     return "%s %d %d | %s | %s" % (mode, 1 if direct2 else 0, 1 if changed else 0, p1, p2)
 
 
+def run_model(mexe, lines):
+    """verdict model on every line; '?' where the model gave no answer"""
+    import resource
+    def big_stack():
+        try:
+            resource.setrlimit(resource.RLIMIT_STACK, (resource.RLIM_INFINITY, resource.RLIM_INFINITY))
+        except Exception:
+            pass
+    mv = []
+    for i in range(0, len(lines), 200):
+        chunk = lines[i:i + 200]
+        p = subprocess.run([mexe], input=("\n".join(chunk) + "\n").encode(), stdout=subprocess.PIPE, timeout=600, preexec_fn=big_stack)
+        out = p.stdout.decode().split("\n")[:len(chunk)]
+        mv += out + ["?"] * (len(chunk) - len(out))
+    return mv
+
+
 def run(res, replay=None):
     tier, seed = res.tier, res.seed
     src = e2v.ensure_build()
@@ -104,8 +121,8 @@ def run(res, replay=None):
     bad, verdict_bad = [], []
     stats = {"inconsistent_inputs": 0, "consistent_inputs": 0, "skipped": 0, "rc_n": {}, "clauses": {}}
     lines = [verdict_model(mexe, "n", c["probs_n"]) for c in cases]
-    p = subprocess.run([mexe], input=("\n".join(lines) + "\n").encode(), stdout=subprocess.PIPE, timeout=600)
-    mv = p.stdout.decode().split("\n")
+    mv = run_model(mexe, lines)
+    model_unavailable = sum(1 for x in mv[:len(cases)] if not x.strip().isdigit())
     for c, mexit in zip(cases, mv):
         rec = c["recipe"]
         nontriv = c["cons0"] not in (None, [])
@@ -127,7 +144,7 @@ def run(res, replay=None):
         # verdict correspondence: the model's UNCORRECTED bit (from the problem log) must be in the real exit status
         if mexit.strip().isdigit() and int(mexit) & 4 and not (c["rc_n"] & 4) and c["rc_n"] not in (8, 12, -9):
             verdict_bad.append((rec, c["probs_n"][:8], c["rc_n"]))
-    res.cov["correspondence"] = {"e2fsck_n_runs": len(cases), "verdict_mismatches": len(verdict_bad),
+    res.cov["correspondence"] = {"e2fsck_n_runs": len(cases), "verdict_mismatches": len(verdict_bad), "model_unavailable": model_unavailable,
                                  "compared": "exit status of every e2fsck -fn run vs the verdict model applied to that run's problem log (model's 'uncorrected' bit must be set in the real status)"}
     res.cov["oracle"] = {"evaluations": len(cases), "failures": len(bad), "distribution": stats,
                          "statement": "whenever the independent reader finds an invariant violated, e2fsck -fn exits non-zero"}
